@@ -277,6 +277,16 @@ func (s *Session) MisuseProbe() {
 	} else {
 		expect("ACK of more events than pending", res, "err:acktoomany", "err:ackempty")
 	}
+	// one more than is pending (the boundary), and counts that overflow the id arithmetic
+	for _, n := range []uint{uint(pending + 1), 1 << 63, ^uint(0), ^uint(0) - uint(pending)} {
+		n := n
+		r2 := s.guard("ack-too-many", func() error { return s.Q.ACK(n) })
+		if pending == 0 && s.Acked == 0 && s.Flushed == 0 {
+			expect(fmt.Sprintf("ACK(%d) on an empty queue", n), r2, "err:ackempty", "err:acktoomany")
+		} else {
+			expect(fmt.Sprintf("ACK(%d) with %d pending events", n, pending), r2, "err:acktoomany", "err:ackempty")
+		}
+	}
 	if !s.inRead {
 		expect("Reader.Next without Begin", s.guard("next-nosession", func() error { _, err := s.R.Next(); return err }), "err:inactivetx")
 		expect("Reader.Read without Begin", s.guard("read-nosession", func() error { _, err := s.R.Read(make([]byte, 4)); return err }), "err:inactivetx")
